@@ -309,7 +309,7 @@ def distance(s1, s2, only_ub=False, **kwargs):
     dtw = array.array('d', [inf] * (2 * length))
     sc = 0
     ec = psi_2b  # the relaxed cells of the virtual first row are not above max_dist
-    for i in range(psi_2b + 1):
+    for i in range(min(psi_2b + 1, length)):
         dtw[i] = 0
     skip = 0
     i0 = 1
